@@ -7,9 +7,14 @@
    literal built by an evaluation, put / + wrappers around them.  A program of the fragment is
 
        let c0 = <list>; ...            list / size constants of Heap/FuncState.v, folded at Generate time
+       let o0 = [c_i, c_j, ...]; ...   LISTS OF LISTS: a constant list whose elements are list constants (the Go list holds
+                                       the pointers to the *List objects, the model's list holds their handles)
        let m0 = <map>; ...             map constants, folded at Generate time: literal (listMap.New(n) + Append per
                                        entry: funcGen/generator.go *MapLiteral), put (AppendMap), + (MergeMap);
                                        entry values: closed integers and the list constants c_i
+       let x0 = o_k[i]; ...            run-time lets: an inner list obtained by index from a list of lists (AccessList: index
+                                       first, then Size() materialises the outer list, then the element - the shared
+                                       inner object itself), o_k.size()
        let x0 = <map>.key; ...         run-time lets (generator.go *Let: the value is computed once, in order, and pushed;
                                        an error ends the evaluation): a LIST field (the shared object itself), an integer
                                        field, or size() of a map expression over the arguments - map literals built by
@@ -43,14 +48,18 @@ Inductive xmexp :=
 Inductive xbind :=
 | XBList (m : xmexp) (k : str)   (* let x = m.k;   a list *)
 | XBInt (m : xmexp) (k : str)    (* let s = m.k;   an integer *)
-| XBSize (m : xmexp).            (* let s = m.size(); *)
+| XBSize (m : xmexp)             (* let s = m.size(); *)
+| XBIndex (o : nat) (i : sexp)   (* let x = o_k[i]; the i-th inner list of the k-th list of lists *)
+| XBOSize (o : nat).             (* let s = o_k.size(); *)
 
-Record xprog := mkXP { xp_defs : list def; xp_mdefs : list xmexp; xp_binds : list xbind; xp_body : body }.
+(* xp_odefs: the lists of lists, each given by the numbers of the list constants it holds *)
+Record xprog := mkXP { xp_defs : list def; xp_odefs : list (list nat); xp_mdefs : list xmexp; xp_binds : list xbind; xp_body : body }.
 
-(* a generated function: list constants (object numbers), scalar constants, map constants (storages), lets, body *)
-Record xfunc := mkXF { xf_cs : list nat; xf_zs : list Z; xf_ms : list mstore; xf_binds : list xbind; xf_body : body }.
+(* a generated function: list constants (object numbers), scalar constants, lists of lists (object numbers), map
+   constants (storages), lets, body *)
+Record xfunc := mkXF { xf_cs : list nat; xf_zs : list Z; xf_os : list nat; xf_ms : list mstore; xf_binds : list xbind; xf_body : body }.
 
-Record xenv := mkXE { xe_cs : list nat; xe_zs : list Z; xe_ms : list mstore; xe_args : list Z }.
+Record xenv := mkXE { xe_cs : list nat; xe_zs : list Z; xe_os : list nat; xe_ms : list mstore; xe_args : list Z }.
 
 Definition id_caps : caps := mkCaps (fun n => n) (fun n => n).
 Definition xsval (en : xenv) (e : sexp) : Z := ev_s (mkEnv id_caps [] (xe_zs en) (xe_args en)) e.
@@ -98,36 +107,80 @@ Fixpoint ev_xm (en : xenv) (mh : mheap) (e : xmexp) : mheap * option mstore :=
 
 Definition in_scope (cs : list nat) (z : Z) : bool := existsb (fun a => Z.eqb z (Z.of_nat a)) cs.
 
+(* o[i] / o.size() on the list of lists a: the evaluation of Heap/FuncState.v (index first; Size() materialises) *)
+Definition index_body (i : sexp) : body := BZ (ZIndex (LConst 0) (ZS i)).
+Definition osize_body : body := BZ (ZSize (LConst 0)).
+Definition oeval (cp : caps) (en : xenv) (h : heap) (a : nat) (b : body) : heap * outcome :=
+  run_iso h (sc_eval cp (mkF [a] (xe_zs en) b) (xe_args en) 0).
+
 (* the run-time lets, in order; the lists / integers they bind are appended to the tables the body sees *)
-Fixpoint ev_binds (en : xenv) (mh : mheap) (bs : list xbind) : mheap * option (list nat * list Z) :=
+Fixpoint ev_binds (cp : caps) (en : xenv) (h : heap) (mh : mheap) (bs : list xbind) : heap * mheap * option (list nat * list Z) :=
   match bs with
-  | [] => (mh, Some (xe_cs en, xe_zs en))
+  | [] => (h, mh, Some (xe_cs en, xe_zs en))
   | XBList m k :: r =>
       let '(mh1, rm) := ev_xm en mh m in
       match rm with
-      | None => (mh1, None)
+      | None => (h, mh1, None)
       | Some s => match mget (mh_arrs mh1) s k with
                   | Some z => if in_scope (xe_cs en) z
-                              then ev_binds (mkXE (xe_cs en ++ [Z.to_nat z]) (xe_zs en) (xe_ms en) (xe_args en)) mh1 r
-                              else (mh1, None)
-                  | None => (mh1, None)
+                              then ev_binds cp (mkXE (xe_cs en ++ [Z.to_nat z]) (xe_zs en) (xe_os en) (xe_ms en) (xe_args en)) h mh1 r
+                              else (h, mh1, None)
+                  | None => (h, mh1, None)
                   end
       end
   | XBInt m k :: r =>
       let '(mh1, rm) := ev_xm en mh m in
       match rm with
-      | None => (mh1, None)
+      | None => (h, mh1, None)
       | Some s => match mget (mh_arrs mh1) s k with
-                  | Some z => ev_binds (mkXE (xe_cs en) (xe_zs en ++ [z]) (xe_ms en) (xe_args en)) mh1 r
-                  | None => (mh1, None)
+                  | Some z => ev_binds cp (mkXE (xe_cs en) (xe_zs en ++ [z]) (xe_os en) (xe_ms en) (xe_args en)) h mh1 r
+                  | None => (h, mh1, None)
                   end
       end
   | XBSize m :: r =>
       let '(mh1, rm) := ev_xm en mh m in
       match rm with
-      | None => (mh1, None)
-      | Some s => ev_binds (mkXE (xe_cs en) (xe_zs en ++ [Z.of_nat (msize (mh_arrs mh1) s)]) (xe_ms en) (xe_args en)) mh1 r
+      | None => (h, mh1, None)
+      | Some s => ev_binds cp (mkXE (xe_cs en) (xe_zs en ++ [Z.of_nat (msize (mh_arrs mh1) s)]) (xe_os en) (xe_ms en) (xe_args en)) h mh1 r
       end
+  | XBIndex o i :: r =>
+      match nth_error (xe_os en) o with
+      | None => (h, mh, None)
+      | Some a =>
+          let '(h1, out) := oeval cp en h a (index_body i) in
+          match out with
+          | OInt z => if in_scope (xe_cs en) z
+                      then ev_binds cp (mkXE (xe_cs en ++ [Z.to_nat z]) (xe_zs en) (xe_os en) (xe_ms en) (xe_args en)) h1 mh r
+                      else (h1, mh, None)
+          | _ => (h1, mh, None)
+          end
+      end
+  | XBOSize o :: r =>
+      match nth_error (xe_os en) o with
+      | None => (h, mh, None)
+      | Some a =>
+          let '(h1, out) := oeval cp en h a osize_body in
+          match out with
+          | OInt z => ev_binds cp (mkXE (xe_cs en) (xe_zs en ++ [z]) (xe_os en) (xe_ms en) (xe_args en)) h1 mh r
+          | _ => (h1, mh, None)
+          end
+      end
+  end.
+
+(* the lists of lists, folded in order: a list literal whose elements are the handles of list constants *)
+Fixpoint handles (cs : list nat) (d : list nat) : option (list Z) :=
+  match d with
+  | [] => Some []
+  | i :: r => match nth_error cs i, handles cs r with Some a, Some zs => Some (Z.of_nat a :: zs) | _, _ => None end
+  end.
+
+Fixpoint ev_odefs (cs : list nat) (h : heap) (ods : list (list nat)) (os : list nat) : heap * option (list nat) :=
+  match ods with
+  | [] => (h, Some os)
+  | d :: r => match handles cs d with
+              | None => (h, None)
+              | Some zs => ev_odefs cs (step h (OLit zs 0)) r (os ++ [nobjs h])
+              end
   end.
 
 (* the map constants, folded in order; each sees the earlier ones *)
@@ -138,7 +191,7 @@ Fixpoint ev_mdefs (en : xenv) (mh : mheap) (ds : list xmexp) : mheap * option (l
       let '(mh1, rm) := ev_xm en mh d in
       match rm with
       | None => (mh1, None)
-      | Some s => ev_mdefs (mkXE (xe_cs en) (xe_zs en) (xe_ms en ++ [s]) (xe_args en)) mh1 r
+      | Some s => ev_mdefs (mkXE (xe_cs en) (xe_zs en) (xe_os en) (xe_ms en ++ [s]) (xe_args en)) mh1 r
       end
   end.
 
@@ -148,26 +201,31 @@ Record xgstate := mkXG { xg_heap : heap; xg_mh : mheap; xg_funcs : list xfunc }.
 
 Definition new_xgenerator : xgstate := mkXG empty_heap empty_mheap [].
 
-(* Generate: the list definitions (Heap/FuncState.v sc_generate), then the map definitions.  A definition whose
+(* Generate: the list definitions (Heap/FuncState.v sc_generate), the lists of lists, then the map definitions.  A definition whose
    folding fails would stay a run-time let: not modelled (no function is added) *)
 Definition xgenerate (cp : caps) (g : xgstate) (p : xprog) : xgstate :=
   let '(h1, r) := run_iso (xg_heap g) (sc_generate cp (mkP (xp_defs p) (xp_body p))) in
   match r with
   | None => mkXG h1 (xg_mh g) (xg_funcs g)
   | Some F =>
-      let '(mh1, rm) := ev_mdefs (mkXE (f_cs F) (f_zs F) [] []) (xg_mh g) (xp_mdefs p) in
-      mkXG h1 mh1 (xg_funcs g ++ match rm with
-                                 | Some ms => [mkXF (f_cs F) (f_zs F) ms (xp_binds p) (xp_body p)]
-                                 | None => []
-                                 end)
+      let '(h2, ro) := ev_odefs (f_cs F) h1 (xp_odefs p) [] in
+      match ro with
+      | None => mkXG h2 (xg_mh g) (xg_funcs g)
+      | Some os =>
+          let '(mh1, rm) := ev_mdefs (mkXE (f_cs F) (f_zs F) os [] []) (xg_mh g) (xp_mdefs p) in
+          mkXG h2 mh1 (xg_funcs g ++ match rm with
+                                     | Some ms => [mkXF (f_cs F) (f_zs F) os ms (xp_binds p) (xp_body p)]
+                                     | None => []
+                                     end)
+      end
   end.
 
-(* Func.Eval: the lets (map heap), then the body (list heap) with the extended tables *)
+(* Func.Eval: the lets (both heaps), then the body (list heap) with the extended tables *)
 Definition xeval_fn (cp : caps) (h : heap) (mh : mheap) (F : xfunc) (args : list Z) (j : nat) : heap * mheap * outcome :=
-  let '(mh1, r) := ev_binds (mkXE (xf_cs F) (xf_zs F) (xf_ms F) args) mh (xf_binds F) in
+  let '(h1, mh1, r) := ev_binds cp (mkXE (xf_cs F) (xf_zs F) (xf_os F) (xf_ms F) args) h mh (xf_binds F) in
   match r with
-  | None => (h, mh1, OErr)
-  | Some (cs, zs) => let '(h1, o) := run_iso h (sc_eval cp (mkF cs zs (xf_body F)) args j) in (h1, mh1, o)
+  | None => (h1, mh1, OErr)
+  | Some (cs, zs) => let '(h2, o) := run_iso h1 (sc_eval cp (mkF cs zs (xf_body F)) args j) in (h2, mh1, o)
   end.
 
 Inductive xevent :=
@@ -199,8 +257,8 @@ Definition xeval_after (cp : caps) (g : xgstate) (hist : list xevent) (k : nat) 
 (* ------------------------------------------------------------------ maps without the map heap
 
    what the lets of an evaluation bind, computed from what the constant maps SHOW (their entries in iteration order),
-   no entry array, no storage tree: the intermediate level of the proofs (Heap/MixStateProofs.v); list-valued entries
-   still hold handles *)
+   no entry array, no storage tree, and from what the lists of lists CONTAIN (lc: content of an object): the
+   intermediate level of the proofs (Heap/MixStateProofs.v); list-valued entries and lists of lists still hold handles *)
 
 Fixpoint pm_xm (en : xenv) (cvm : list (list entry)) (e : xmexp) : option (list entry) :=
   match e with
@@ -221,7 +279,7 @@ Fixpoint pm_xm (en : xenv) (cvm : list (list entry)) (e : xmexp) : option (list 
       end
   end.
 
-Fixpoint pm_binds (en : xenv) (cvm : list (list entry)) (bs : list xbind) : option (list nat * list Z) :=
+Fixpoint pm_binds (en : xenv) (cvm : list (list entry)) (lc : nat -> list Z) (bs : list xbind) : option (list nat * list Z) :=
   match bs with
   | [] => Some (xe_cs en, xe_zs en)
   | XBList m k :: r =>
@@ -229,7 +287,7 @@ Fixpoint pm_binds (en : xenv) (cvm : list (list entry)) (bs : list xbind) : opti
       | None => None
       | Some es => match assoc k es with
                    | Some z => if in_scope (xe_cs en) z
-                               then pm_binds (mkXE (xe_cs en ++ [Z.to_nat z]) (xe_zs en) (xe_ms en) (xe_args en)) cvm r
+                               then pm_binds (mkXE (xe_cs en ++ [Z.to_nat z]) (xe_zs en) (xe_os en) (xe_ms en) (xe_args en)) cvm lc r
                                else None
                    | None => None
                    end
@@ -238,21 +296,41 @@ Fixpoint pm_binds (en : xenv) (cvm : list (list entry)) (bs : list xbind) : opti
       match pm_xm en cvm m with
       | None => None
       | Some es => match assoc k es with
-                   | Some z => pm_binds (mkXE (xe_cs en) (xe_zs en ++ [z]) (xe_ms en) (xe_args en)) cvm r
+                   | Some z => pm_binds (mkXE (xe_cs en) (xe_zs en ++ [z]) (xe_os en) (xe_ms en) (xe_args en)) cvm lc r
                    | None => None
                    end
       end
   | XBSize m :: r =>
       match pm_xm en cvm m with
       | None => None
-      | Some es => pm_binds (mkXE (xe_cs en) (xe_zs en ++ [Z.of_nat (length es)]) (xe_ms en) (xe_args en)) cvm r
+      | Some es => pm_binds (mkXE (xe_cs en) (xe_zs en ++ [Z.of_nat (length es)]) (xe_os en) (xe_ms en) (xe_args en)) cvm lc r
+      end
+  | XBIndex o i :: r =>
+      match nth_error (xe_os en) o with
+      | None => None
+      | Some a =>
+          match sp_body (mkSE [lc a] (xe_zs en) (xe_args en)) (index_body i) 0 with
+          | OInt z => if in_scope (xe_cs en) z
+                      then pm_binds (mkXE (xe_cs en ++ [Z.to_nat z]) (xe_zs en) (xe_os en) (xe_ms en) (xe_args en)) cvm lc r
+                      else None
+          | _ => None
+          end
+      end
+  | XBOSize o :: r =>
+      match nth_error (xe_os en) o with
+      | None => None
+      | Some a =>
+          match sp_body (mkSE [lc a] (xe_zs en) (xe_args en)) osize_body 0 with
+          | OInt z => pm_binds (mkXE (xe_cs en) (xe_zs en ++ [z]) (xe_os en) (xe_ms en) (xe_args en)) cvm lc r
+          | _ => None
+          end
       end
   end.
 
 (* what function F denotes on the state (h, mh) it was generated on: lets from the entries its constant maps show in
    mh, body from the CONTENT its list constants have in h *)
 Definition xfunc_denotes (h : heap) (mh : mheap) (F : xfunc) (args : list Z) (j : nat) : outcome :=
-  match pm_binds (mkXE (xf_cs F) (xf_zs F) (xf_ms F) args) (map (miter (mh_arrs mh)) (xf_ms F)) (xf_binds F) with
+  match pm_binds (mkXE (xf_cs F) (xf_zs F) (xf_os F) (xf_ms F) args) (map (miter (mh_arrs mh)) (xf_ms F)) (icontent h) (xf_binds F) with
   | None => OErr
   | Some (cs, zs) => sp_body (func_senv h (mkF cs zs (xf_body F)) args) (xf_body F) j
   end.
@@ -265,7 +343,7 @@ Definition xfunc_denotes (h : heap) (mh : mheap) (F : xfunc) (args : list Z) (j 
 Inductive xsv := SVI (z : Z) | SVL (xs : list Z).
 Definition sentry := (str * xsv)%type.
 
-Record xsenv := mkXSE { xs_cv : list (list Z); xs_zs : list Z; xs_mv : list (list sentry); xs_args : list Z }.
+Record xsenv := mkXSE { xs_cv : list (list Z); xs_zs : list Z; xs_ov : list (list (list Z)); xs_mv : list (list sentry); xs_args : list Z }.
 
 Definition sp_xv (se : xsenv) (v : xval) : option xsv :=
   match v with
@@ -313,7 +391,7 @@ Fixpoint sp_binds (se : xsenv) (bs : list xbind) : option (list (list Z) * list 
       match sp_xm se m with
       | None => None
       | Some es => match assoc k es with
-                   | Some (SVL xs) => sp_binds (mkXSE (xs_cv se ++ [xs]) (xs_zs se) (xs_mv se) (xs_args se)) r
+                   | Some (SVL xs) => sp_binds (mkXSE (xs_cv se ++ [xs]) (xs_zs se) (xs_ov se) (xs_mv se) (xs_args se)) r
                    | _ => None
                    end
       end
@@ -321,15 +399,43 @@ Fixpoint sp_binds (se : xsenv) (bs : list xbind) : option (list (list Z) * list 
       match sp_xm se m with
       | None => None
       | Some es => match assoc k es with
-                   | Some (SVI z) => sp_binds (mkXSE (xs_cv se) (xs_zs se ++ [z]) (xs_mv se) (xs_args se)) r
+                   | Some (SVI z) => sp_binds (mkXSE (xs_cv se) (xs_zs se ++ [z]) (xs_ov se) (xs_mv se) (xs_args se)) r
                    | _ => None
                    end
       end
   | XBSize m :: r =>
       match sp_xm se m with
       | None => None
-      | Some es => sp_binds (mkXSE (xs_cv se) (xs_zs se ++ [Z.of_nat (length es)]) (xs_mv se) (xs_args se)) r
+      | Some es => sp_binds (mkXSE (xs_cv se) (xs_zs se ++ [Z.of_nat (length es)]) (xs_ov se) (xs_mv se) (xs_args se)) r
       end
+  | XBIndex o i :: r =>
+      match nth_error (xs_ov se) o with
+      | None => None
+      | Some ll =>
+          let iv := sp_s (mkSE [] (xs_zs se) (xs_args se)) i in
+          if (iv <? 0)%Z then None
+          else match nth_error ll (Z.to_nat iv) with
+               | Some xs => sp_binds (mkXSE (xs_cv se ++ [xs]) (xs_zs se) (xs_ov se) (xs_mv se) (xs_args se)) r
+               | None => None
+               end
+      end
+  | XBOSize o :: r =>
+      match nth_error (xs_ov se) o with
+      | None => None
+      | Some ll => sp_binds (mkXSE (xs_cv se) (xs_zs se ++ [Z.of_nat (length ll)]) (xs_ov se) (xs_mv se) (xs_args se)) r
+      end
+  end.
+
+Fixpoint sp_inner (cv : list (list Z)) (d : list nat) : option (list (list Z)) :=
+  match d with
+  | [] => Some []
+  | i :: r => match nth_error cv i, sp_inner cv r with Some xs, Some ll => Some (xs :: ll) | _, _ => None end
+  end.
+
+Fixpoint sp_odefs (cv : list (list Z)) (ods : list (list nat)) : option (list (list (list Z))) :=
+  match ods with
+  | [] => Some []
+  | d :: r => match sp_inner cv d, sp_odefs cv r with Some ll, Some ov => Some (ll :: ov) | _, _ => None end
   end.
 
 Fixpoint sp_mdefs (se : xsenv) (ds : list xmexp) : option (list (list sentry)) :=
@@ -337,7 +443,7 @@ Fixpoint sp_mdefs (se : xsenv) (ds : list xmexp) : option (list (list sentry)) :
   | [] => Some (xs_mv se)
   | d :: r => match sp_xm se d with
               | None => None
-              | Some es => sp_mdefs (mkXSE (xs_cv se) (xs_zs se) (xs_mv se ++ [es]) (xs_args se)) r
+              | Some es => sp_mdefs (mkXSE (xs_cv se) (xs_zs se) (xs_ov se) (xs_mv se ++ [es]) (xs_args se)) r
               end
   end.
 
@@ -346,12 +452,16 @@ Definition sp_xprog (p : xprog) (args : list Z) (j : nat) : option outcome :=
   match sp_defs (xp_defs p) [] [] with
   | None => None
   | Some (cv, zs) =>
-      match sp_mdefs (mkXSE cv zs [] []) (xp_mdefs p) with
+      match sp_odefs cv (xp_odefs p) with
       | None => None
-      | Some mv =>
-          Some (match sp_binds (mkXSE cv zs mv args) (xp_binds p) with
-                | None => OErr
-                | Some (cv', zs') => sp_body (mkSE cv' zs' args) (xp_body p) j
-                end)
+      | Some ov =>
+          match sp_mdefs (mkXSE cv zs ov [] []) (xp_mdefs p) with
+          | None => None
+          | Some mv =>
+              Some (match sp_binds (mkXSE cv zs ov mv args) (xp_binds p) with
+                    | None => OErr
+                    | Some (cv', zs') => sp_body (mkSE cv' zs' args) (xp_body p) j
+                    end)
+          end
       end
   end.
